@@ -19,7 +19,7 @@ func init() {
 		ID:          "C03",
 		Title:       "Unique and set indexes mirror entity state; uniqueness is enforced",
 		Technique:   "static analysis: must-pass ordering of the capture-old/persist/apply-new protocol, path rule 'the old index entry is removed on every changed path', no-removal-after-addition phase rule, duplicate-check dominance for unique puts, empty-key probe pairing, capture/remover pairing per constraint type",
-		LevelText:   "Structural necessary conditions, decided on every path: Update runs ProcessBeforeUpdate before and ProcessAfterUpdate after the persist, Create runs ProcessAfterUpdate after it, the delete path runs ProcessBeforeDelete and link cleanup before removing the entity; each index's apply step removes the captured old entry on every path where the value changed (no early exit around it), adds nothing before all removals are done, puts a unique value only on the not-present edge of a lookup of that value (else records the duplicate error), and prunes an emptied set-index key only right after probing it; every index-writing constraint captures its old state and has a remover on delete. The equality of index content and entity state after arbitrary histories needs execution and is not decided. Added later: the indexing context a store builds shares the operation's error holder (HOLDER); the pruning of an emptied set-index key is found by what it does (any package function that can reach DeleteBucket) and must be guarded by the emptiness probe at the call or inside. Added in rounds 8-9: the delete reaches every child store's constraints (ORCH); a missing path element yields nil, never the deepest existing ancestor (PATHNIL); AddConstraint appends what it is given on every path (CONSTRAINTREG); create-or-not is a constant of the entry point (CREATECTX). Added in round 11: index objects keep no state outside the transaction (TXSTATE); a failed index bucket is recorded or returned (INDEXBUCKETERR); the holder is consulted after the last index step in Create/Update/DeleteById (ERRREACH).",
+		LevelText:   "Structural necessary conditions, decided on every path: Update runs ProcessBeforeUpdate before and ProcessAfterUpdate after the persist, Create runs ProcessAfterUpdate after it, the delete path runs ProcessBeforeDelete and link cleanup before removing the entity; each index's apply step removes the captured old entry on every path where the value changed (no early exit around it), adds nothing before all removals are done, puts a unique value only on the not-present edge of a lookup of that value (else records the duplicate error), and prunes an emptied set-index key only right after probing it; every index-writing constraint captures its old state and has a remover on delete. The equality of index content and entity state after arbitrary histories needs execution and is not decided. Added later: the indexing context a store builds shares the operation's error holder (HOLDER); the pruning of an emptied set-index key is found by what it does (any package function that can reach DeleteBucket) and must be guarded by the emptiness probe at the call or inside. Added in rounds 8-9: the delete reaches every child store's constraints (ORCH); a missing path element yields nil, never the deepest existing ancestor (PATHNIL); AddConstraint appends what it is given on every path (CONSTRAINTREG); create-or-not is a constant of the entry point (CREATECTX). Added in round 11: index objects keep no state outside the transaction (TXSTATE); a failed index bucket is recorded or returned (INDEXBUCKETERR); the holder is consulted after the last index step in Create/Update/DeleteById (ERRREACH). Added in round 12: a walk over a set cursor is not ended by a nil element (SETWALK).",
 		LevelNote:   "Trusted: go/types, x/tools SSA, bbolt. Interface dispatch resolved by name-and-shape CHA over the repository.",
 		DesignRef:   "DESIGN.md C03",
 		Explanation: "Sites: BaseStore.Create/Update/processDeleteConstraints, IndexingContext.Process*, every Constraint implementer's ProcessBeforeUpdate/ProcessAfterUpdate/ProcessBeforeDelete.",
@@ -61,7 +61,7 @@ func init() {
 		ID:          "C04",
 		Title:       "Foreign keys: targets exist, back-references exact, delete restricts or cascades",
 		Technique:   "static analysis: taint rule (no run-time text flows into a filter parser from inside the library), wiring rule for the Add*Fk* registrations, existence-check dominance, old-back-reference-removed-on-every-changed-path rule, shape rule for the restrict/cascade delete loop (delete inside the live cursor loop with re-seek); raw-id rule for the cascade filter constant",
-		LevelText:   "Necessary conditions decided on every path: no filter text is assembled from data inside the library (ids with quotes, backslashes or keywords cannot change a query's meaning); every fk registration also registers the delete-side constraint on the target store; a back-reference is written only into an existing target (not-found otherwise) and fk constraints test the target's presence; on update the old back-reference is removed on every path where the reference changed; restrict refuses while a referrer exists; cascade deletes referrers from the live cursor (re-seeking after each delete), returning on the first error. Exact back-reference sets after histories are not decided. The constant of the cascade/restrict filter is the id parameter itself (nothing unquotes or unescapes it); every loop that deletes referrers re-seeks its cursor. Added later: the indexing context shares the operation's error holder (HOLDER); a loop that deletes through the store while a cursor over the same data is live re-seeks before it continues (RESEEK). Added in rounds 8-9: a refusal raised for a child store reaches the caller (LOOKEDAT); the referenced store is asked only about non-empty reference values (EMPTYREF); every constraint handed in is registered (CONSTRAINTREG); the referrer filter of the cascade is made per invocation (FRESHFILTER); the nested delete of the cascade is guarded against re-entering an entity already being deleted (CASCADECYCLE: KNOWN FINDING on the pinned tree, see known_findings.json). Added in round 10: a reference read through a symbol is not looked up in that symbol's own store (REFSTORE); a forward Seek does not move the bolt cursor again, cursor families with the direction in a flag field are decided under the constructor's constant (CURSORSEEK); the parent chain runs as the kind of operation the entry point says (CREATECTX). Added in round 11: the path of an entity symbol ends in its key (SYMPATH).",
+		LevelText:   "Necessary conditions decided on every path: no filter text is assembled from data inside the library (ids with quotes, backslashes or keywords cannot change a query's meaning); every fk registration also registers the delete-side constraint on the target store; a back-reference is written only into an existing target (not-found otherwise) and fk constraints test the target's presence; on update the old back-reference is removed on every path where the reference changed; restrict refuses while a referrer exists; cascade deletes referrers from the live cursor (re-seeking after each delete), returning on the first error. Exact back-reference sets after histories are not decided. The constant of the cascade/restrict filter is the id parameter itself (nothing unquotes or unescapes it); every loop that deletes referrers re-seeks its cursor. Added later: the indexing context shares the operation's error holder (HOLDER); a loop that deletes through the store while a cursor over the same data is live re-seeks before it continues (RESEEK). Added in rounds 8-9: a refusal raised for a child store reaches the caller (LOOKEDAT); the referenced store is asked only about non-empty reference values (EMPTYREF); every constraint handed in is registered (CONSTRAINTREG); the referrer filter of the cascade is made per invocation (FRESHFILTER); the nested delete of the cascade is guarded against re-entering an entity already being deleted (CASCADECYCLE: KNOWN FINDING on the pinned tree, see known_findings.json). Added in round 10: a reference read through a symbol is not looked up in that symbol's own store (REFSTORE); a forward Seek does not move the bolt cursor again, cursor families with the direction in a flag field are decided under the constructor's constant (CURSORSEEK); the parent chain runs as the kind of operation the entry point says (CREATECTX). Added in round 11: the path of an entity symbol ends in its key (SYMPATH). Added in round 12: a tag-only payload decodes to a nil value (TAGONLYNIL); a filter built over a store's symbols is evaluated on that store (FILTERSTORE); a non-empty reference is accepted only after IsEntityPresent was asked in that call (ASKED).",
 		LevelNote:   "Trusted: go/types, x/tools SSA, bbolt; evaluation of the AST filter used by the cascade is C01's domain.",
 		DesignRef:   "DESIGN.md C04",
 		Explanation: "Sites: every call of ast.Parse/QueryIds/DeleteWhere/zitiql.Parse made from library code; Indexer.Add*Fk*; fkIndex/fkConstraint/fkDeleteConstraint/fkDeleteCascadeConstraint Process* methods.",
